@@ -25,6 +25,7 @@ Record Good (ob : nat -> obj) (n : nat) (W : tbl) (sn sd : list nat) : Prop := m
            oin (ob o) = true;
   g_rows : forall o k, oin (ob o) = true -> okey (ob o) = Some k -> exists v, W k = Some v /\ VA (ob o) k v;
   g_new : forall o, In o sn <-> (o < n /\ okey (ob o) = None /\ oatt (ob o) = true);
+  g_newd : forall o, In o sn -> odelf (ob o) = false;
   g_del : forall o, In o sd -> oin (ob o) = true;
   g_nodup : NoDup sn /\ NoDup sd;
   g_dels : forall o k, o < n -> okey (ob o) = Some k -> oatt (ob o) = true -> odelf (ob o) = true ->
@@ -88,8 +89,7 @@ Definition expunged (f : frame) (sn : list nat) (o : nat) : bool := mem o (fnew 
    marked-for-deletion list [sd] and table [W] *)
 Record Rel (g : ghost) (f : frame) (ob : nat -> obj) (n : nat) (sn sd : list nat) (W : tbl) : Prop := mkRel {
   r_n : gn g <= n;
-  r_exp : forall o, o < gn g -> expunged f sn o = true ->
-            okey (gobjs g o) = None /\ oatt (gobjs g o) = false;
+  r_exp : forall o, o < gn g -> expunged f sn o = true -> oatt (gobjs g o) = false;
   (* objects unattached then and now carry no obligation (the session does not know them) *)
   r_id : forall o, o < gn g -> expunged f sn o = false ->
             oatt (ob o) = oatt (gobjs g o) /\
@@ -107,6 +107,7 @@ Record Rel (g : ghost) (f : frame) (ob : nat -> obj) (n : nat) (sn sd : list nat
   r_del : forall o, mem o (fdel f) = true ->
             o < n /\ oin (ob o) = false /\ odelf (ob o) = true /\ oatt (ob o) = true /\ okey (ob o) <> None;
   r_lists : forall o, (mem o (fnew f) = true \/ mem o (fdirty f) = true) -> o < n;
+  r_ksu : NoDup (map fst (fks f));
   (* what was flushed as dirty was in the identity map when the frame began, or is new in the frame *)
   r_dirty : forall o, mem o (fdirty f) = true -> mem o (fnew f) = true \/ (o < gn g /\ oin (gobjs g o) = true);
   (* objects in the deleted state when the frame began are only ever changed by attribute assignments,
@@ -131,16 +132,22 @@ Record Approx (g : ghost) (ob : nat -> obj) (n : nat) : Prop := mkApprox {
 (* ------------------------------------------------------------------ the database side *)
 (* [T] is the table "inside" the frame: the working table for the innermost frame, the snapshot of the
    next inner frame otherwise.  A frame without a connection has not seen a statement since it began. *)
-Fixpoint SavesOk (fs : list frame) (gs : list ghost) (T : tbl) (cm : tbl) (sv : list (nat * tbl)) : Prop :=
+Definition live_conn (f : frame) : bool := fconn f && fnested f && live_state (fstate f).
+(* the savepoints the database holds: one per nested frame that has a connection and was not rolled back *)
+Fixpoint entries (fs : list frame) (gs : list ghost) : list (nat * tbl) :=
+  match fs, gs with
+  | f :: fs', g :: gs' => if live_conn f then (fid f, gW g) :: entries fs' gs' else entries fs' gs'
+  | _, _ => []
+  end.
+Fixpoint SnapOk (fs : list frame) (gs : list ghost) (T : tbl) (cm : tbl) : Prop :=
   match fs, gs with
   | [], [] => True
   | f :: fs', g :: gs' =>
-      (if fconn f then
-         if fnested f then exists r, drop_to (fid f) sv = Some ((fid f, gW g) :: r) /\ SavesOk fs' gs' (gW g) cm r
-         else cm = gW g /\ SavesOk fs' gs' (gW g) cm sv
-       else gW g = T /\ SavesOk fs' gs' (gW g) cm sv)
+      (if fconn f then (if fnested f then True else cm = gW g) else gW g = T) /\ SnapOk fs' gs' (gW g) cm
   | _, _ => False
   end.
+Definition SavesOk (fs : list frame) (gs : list ghost) (T : tbl) (cm : tbl) (sv : list (nat * tbl)) : Prop :=
+  sv = entries fs gs /\ SnapOk fs gs T cm.
 
 (* frames: ids strictly decreasing outwards and below the counter, savepoint ids below the counter;
    only the innermost frame may be DEACTIVE, the others are ACTIVE; a frame with a connection has
@@ -171,17 +178,8 @@ Definition Chain (st : sess) (gs : list ghost) : Prop :=
       GClean g /\
       (match fstate f with
        | ACTIVE => Rel g f (objs st) (nobj st) (snew st) (sdel st) (work st)
-       | _ => Approx g (objs st) (nobj st) /\ snew st = [] /\ sdel st = [] /\ (forall k, work st k = gW g k)
+       | _ => Approx g (objs st) (nobj st) /\ snew st = [] /\ sdel st = [] /\ work st = gW g
        end) /\ ChainG g fs' gs'
   | _, _ => False
   end.
 
-Record Inv (st : sess) : Prop := mkInv {
-  i_good : GoodS st;
-  i_j : J (objs st) (nobj st);
-  i_frames : FramesOk (nfid st) (stack st) /\ head_ok (stack st);
-  i_svids : forall e, In e (saves st) -> fst e < nfid st;
-  i_nostack : stack st = [] -> is_clean st = true;
-  i_noconn : (forall f, In f (stack st) -> fconn f = false) -> work st = committed st /\ saves st = [];
-  i_chain : exists gs, Chain st gs /\ SavesOk (stack st) gs (work st) (committed st) (saves st)
-}.
